@@ -156,6 +156,7 @@ class PostgreSQLQueryBuilder(QueryBuilder):
         has_update_from = self._update_table and self._from
 
         ctx = ctx or PostgreSQLQuery.SQL_CONTEXT
+        outer_ctx = ctx
         ctx = ctx.copy(
             with_namespace=any(
                 [
@@ -166,6 +167,9 @@ class PostgreSQLQueryBuilder(QueryBuilder):
                     has_update_from,
                 ]
             ),
+            subquery=False,
+            with_alias=False,
+            subcriterion=False,
         )
         if self._update_table:
             if self._with:
@@ -196,7 +200,7 @@ class PostgreSQLQueryBuilder(QueryBuilder):
             if self._limit:
                 querystring += self._limit_sql(ctx)
         else:
-            querystring = super().get_sql(ctx)
+            querystring = super().get_sql(outer_ctx)
         if self._returns:
             returning_ctx = ctx.copy(with_namespace=self._update_table and self.from_)
             querystring += self._returning_sql(returning_ctx)
